@@ -125,6 +125,10 @@ class GeminiServerProtocol(asyncio.Protocol):
         self._request_dispatched = False
         self._response_sent = False
 
+        # The connection is closed only after the response left the write buffer
+        self._write_paused = False
+        self._close_when_drained = False
+
     def connection_made(self, transport: asyncio.BaseTransport) -> None:
         """Called when a client connects.
 
@@ -134,6 +138,10 @@ class GeminiServerProtocol(asyncio.Protocol):
         self.transport = transport  # type: ignore[assignment]
         if self.transport:
             self.peer_name = self.transport.get_extra_info("peername")
+            # Have the transport report unsent data at once (see _send_response)
+            set_limits = getattr(self.transport, "set_write_buffer_limits", None)
+            if callable(set_limits):
+                set_limits(high=0)
         self.request_start_time = time.time()
 
         # Set timeout for receiving request
@@ -316,8 +324,27 @@ class GeminiServerProtocol(asyncio.Protocol):
         if body:
             self.transport.write(body)
 
-        # Close connection (Gemini/Titan: one request per connection)
-        self.transport.close()
+        # Close connection (Gemini/Titan: one request per connection), but only
+        # once the response has left the write buffer: closing a TLS transport
+        # starts a shutdown that is aborted - dropping whatever is still
+        # unsent - when the peer has not taken everything within the shutdown
+        # timeout.
+        if self._write_paused:
+            self._close_when_drained = True
+        else:
+            self.transport.close()
+
+    def pause_writing(self) -> None:
+        """Called by the transport when its write buffer is not empty."""
+        self._write_paused = True
+
+    def resume_writing(self) -> None:
+        """Called by the transport when its write buffer has drained."""
+        self._write_paused = False
+        if self._close_when_drained:
+            self._close_when_drained = False
+            if self.transport:
+                self.transport.close()
 
     def _send_error_response(self, status: StatusCode, message: str) -> None:
         """Send an error response and close the connection.
